@@ -127,6 +127,18 @@ def scenario_projects() -> List[Dict[str, Any]]:
         U("mv._impl", "class Outer:\n    '''o'''\n    class Inner:\n        '''i'''\n        def f(self):\n            '''f'''\n"
                       "class Stay:\n    '''s'''\n"),
     ], ["HIDDEN:mv._impl"])
+    # the same exact name in several rules: the LAST one wins (both orders), also against a later pattern; rules given
+    # in setup.cfg; command-line rules replacing the configuration file's; a rule for a member of a hidden container
+    dupsrc = ("'''m'''\nclass _Secret:\n    '''s'''\n    def secret_method(self):\n        '''sm'''\nclass Old:\n    '''o'''\n"
+              "class Api(_Secret):\n    '''see L{_Secret} and L{Old}'''\n")
+    add("duplicate-exact-rules", [U("dr", dupsrc)],
+        ["PUBLIC:dr._Secret", "PUBLIC:dr.Old", "HIDDEN:dr._Secret", "PRIVATE:dr.Old"])
+    add("duplicate-exact-rules-reversed", [U("dr", dupsrc)],
+        ["PRIVATE:dr.Old", "HIDDEN:dr._Secret", "PUBLIC:dr.Old", "PUBLIC:dr._Secret"])
+    add("exact-beats-later-pattern", [U("dr", dupsrc)], ["HIDDEN:dr.Old", "PUBLIC:dr.*", "PRIVATE:*.Api"])
+    add("rules-in-config-file", [U("dr", dupsrc)], [], cfg_privacy=["PUBLIC:dr._Secret", "HIDDEN:dr._Secret", "HIDDEN:dr.Api"])
+    add("config-replaced-by-command-line", [U("dr", dupsrc)], ["PRIVATE:dr.Api"], cfg_privacy=["HIDDEN:dr.Api", "HIDDEN:dr.Old"])
+    add("member-of-hidden-container", [U("dr", dupsrc)], ["PUBLIC:dr._Secret.secret_method", "HIDDEN:dr._Secret"])
     # (a project whose only root is hidden has no visible object at all: lunr then divides by zero and the run aborts
     #  before anything is written - nothing to crawl; counted as `run-crash` when a random rule list does it)
     add("hidden-one-of-two-roots", [U("r1", "'''one see L{r2.B}'''\nclass A:\n    '''a'''\n"), U("r2", "'''two'''\nfrom r1 import A\nclass B(A):\n    '''see L{r1}'''\n")],
@@ -212,10 +224,23 @@ def known_names(units: Sequence[Unit]) -> List[str]:
     return list(dict.fromkeys(names))
 
 
+LEVELS = ["HIDDEN", "PRIVATE", "PUBLIC"]
+
+
 def random_privacy(rng, units: Sequence[Unit]) -> List[str]:
+    """a list of rules: exact names and patterns, three levels, any order; the same exact name in two or three rules with
+    different levels (both orders occur), exact-vs-pattern conflicts on one object (both orders), rules for members of a
+    hidden container"""
     names = known_names(units)
     nonroot = [n for n in names if "." in n] or names
     rules: List[str] = []
+
+    def pattern_for(n: str) -> str:
+        parts = n.split(".")
+        return rng.choice([
+            "*." + parts[-1], "**." + parts[-1], ".".join(parts[:-1]) + ".*", "*._*", "**._*",
+            parts[0] + ".**", "*.?", ".".join(parts[:-1] + [parts[-1][:1] + "*"]), "**.[a-f]",
+        ])
     for _ in range(rng.choice([0, 1, 1, 2, 3, 4])):
         level = rng.choice(["HIDDEN", "HIDDEN", "PRIVATE", "PUBLIC"])
         form = rng.choice(["exact", "exact", "exact", "pattern", "pattern"])
@@ -223,14 +248,49 @@ def random_privacy(rng, units: Sequence[Unit]) -> List[str]:
             pool = nonroot if rng.random() < 0.93 else names
             pat = rng.choice(pool)
         else:
-            n = rng.choice(nonroot)
-            parts = n.split(".")
-            pat = rng.choice([
-                "*." + parts[-1], "**." + parts[-1], ".".join(parts[:-1]) + ".*", "*._*", "**._*",
-                parts[0] + ".**", "*.?", ".".join(parts[:-1] + [parts[-1][:1] + "*"]), "**.[a-f]",
-            ])
+            pat = pattern_for(rng.choice(nonroot))
         rules.append("%s:%s" % (level, pat))
+    shape = rng.choice(["plain", "plain", "dup", "dup", "dup3", "exact-pattern", "pattern-exact", "inside-hidden"])
+    extra: List[str] = []
+    if shape in ("dup", "dup3"):
+        n = rng.choice(nonroot)
+        lv = rng.sample(LEVELS, 3 if shape == "dup3" else 2)
+        extra = ["%s:%s" % (l, n) for l in lv]
+    elif shape in ("exact-pattern", "pattern-exact"):
+        n = rng.choice(nonroot)
+        parts = n.split(".")
+        la, lb = rng.sample(LEVELS, 2)
+        ex = "%s:%s" % (la, n)
+        pt = "%s:%s" % (lb, rng.choice(["*." + parts[-1], "**." + parts[-1], ".".join(parts[:-1]) + ".*"]))
+        extra = [ex, pt] if shape == "exact-pattern" else [pt, ex]
+    elif shape == "inside-hidden":
+        inner = [n for n in nonroot if n.count(".") >= 2] or nonroot
+        n = rng.choice(inner)
+        extra = ["HIDDEN:" + n.rsplit(".", 1)[0], "%s:%s" % (rng.choice(["PUBLIC", "PRIVATE"]), n)]
+        if rng.random() < 0.5:
+            extra.reverse()
+    # interleave the shaped rules with the random ones, keeping their relative order
+    pos = sorted(rng.randint(0, len(rules)) for _ in extra)
+    for k, (i, r) in enumerate(zip(pos, extra)):
+        rules.insert(i + k, r)
     return rules
+
+
+def split_config(rng, rules: List[str]) -> Tuple[List[str], List[str]]:
+    """where the rules are given: all on the command line, all in setup.cfg, or some in each.
+    (command-line --privacy values REPLACE the ones of the configuration file: configargparse precedence, C20)"""
+    how = rng.choice(["cli", "cli", "cli", "cfg", "both"])
+    if how == "cli" or not rules:
+        return rules, []
+    if how == "cfg":
+        return [], rules
+    k = rng.randint(0, len(rules))
+    return rules[k:], rules[:k]
+
+
+def effective_rules(case: Dict[str, Any]) -> List[str]:
+    """the rule list the run is given: the command line's if it has any --privacy, else the configuration file's"""
+    return list(case.get("privacy") or []) or list(case.get("cfg_privacy") or [])
 
 
 def random_options(rng) -> Dict[str, Any]:
@@ -261,7 +321,7 @@ def real_package_cases(rng) -> List[Dict[str, Any]]:
 def make_cases(rng, n_random: int, rule_lists: int = 1, scenarios: bool = True) -> List[Dict[str, Any]]:
     cases: List[Dict[str, Any]] = []
     for sc in (scenario_projects() if scenarios else []):
-        cases.append({"name": sc["name"], "units": sc["units"], "privacy": sc["privacy"],
+        cases.append({"name": sc["name"], "units": sc["units"], "privacy": sc["privacy"], "cfg_privacy": sc.get("cfg_privacy", []),
                       "opts": {"theme": rng.choice(THEMES), "expand": rng.choice([1, 2, 3]), "toc": 6, "nosidebar": False}})
         # the same project under the default rules (no hidden object): baseline for the scenario
         if sc["privacy"] and rng.random() < 0.5:
@@ -269,7 +329,8 @@ def make_cases(rng, n_random: int, rule_lists: int = 1, scenarios: bool = True) 
     for i in range(n_random):
         units = random_project(rng)
         for j in range(rule_lists):
-            cases.append({"name": "gen%d.%d" % (i, j), "units": units, "privacy": random_privacy(rng, units),
+            cli, cfg = split_config(rng, random_privacy(rng, units))
+            cases.append({"name": "gen%d.%d" % (i, j), "units": units, "privacy": cli, "cfg_privacy": cfg,
                           "opts": random_options(rng)})
     return cases
 
@@ -282,6 +343,8 @@ def _units_payload(units: Sequence[Unit]) -> Dict[str, str]:
 
 def case_payload(case: Dict[str, Any]) -> Dict[str, Any]:
     p = {"name": case["name"], "units": _units_payload(case["units"]), "privacy": case["privacy"], "opts": case["opts"]}
+    if case.get("cfg_privacy"):
+        p["cfg_privacy"] = list(case["cfg_privacy"])
     if case.get("path"):
         p["path"] = case["path"]
         p["docformat"] = case.get("docformat", "epytext")
@@ -295,7 +358,8 @@ def case_from_payload(p: Dict[str, Any]) -> Dict[str, Any]:
         q = k.rstrip("/")
         units.append(Unit(q, pkg, src, q.rpartition(".")[0] or None))
     units.sort(key=lambda u: (u.qname.count("."), u.qname))
-    c = {"name": p.get("name", "replay"), "units": units, "privacy": p.get("privacy", []), "opts": p.get("opts", {})}
+    c = {"name": p.get("name", "replay"), "units": units, "privacy": p.get("privacy", []), "opts": p.get("opts", {}),
+         "cfg_privacy": p.get("cfg_privacy", [])}
     if p.get("path"):
         c["path"] = p["path"]
         c["docformat"] = p.get("docformat", "epytext")
@@ -331,6 +395,10 @@ def run_case(case: Dict[str, Any]) -> Dict[str, Any]:
     try:
         os.chdir(tmp)
         tops = [case["path"]] if case.get("path") else write_tree(case["units"], os.path.join(tmp, "src"))
+        if case.get("cfg_privacy"):
+            # the run's working directory is tmp: pydoctor reads ./setup.cfg
+            with open(os.path.join(tmp, "setup.cfg"), "w") as f:
+                f.write("[tool:pydoctor]\nprivacy =\n" + "".join("    %s\n" % r for r in case["cfg_privacy"]))
         out = os.path.join(tmp, "out")
         driver.make = make
         try:
@@ -493,6 +561,8 @@ def extract_facts(system) -> Dict[str, Any]:
             "keys_ok": all(key == c.name for key, c in o.contents.items()),
             "url": o.url if (k in "PMC" or o.parent is not None) else None,
             "hasdoc": bool(summary.hasdocstring(o)),
+            "ismodule": isinstance(o, model.Module),
+            "incontents": o.parent is None or o.parent.contents.get(o.name) is o,
         }
         # displayed docstring: its source and the targets of its L{...}
         doc, source = model.get_docstring(o)
@@ -1042,10 +1112,22 @@ PRODUCER_NAMES = {
 
 
 class Truth:
-    """what the real System says about every object (nothing here comes from the Lean model)"""
+    """the structure of the real System (tree, names, addresses) and, for every object, the privacy the RULE LIST gives
+    it - computed by the Lean Privacy model (C13) from the rules the run was given, not read from pydoctor: `expected`
+    is the list of levels ('H', 'R', 'U') in table order. `o["privacy"]` / `o["visible"]` are then the expected values;
+    what pydoctor computed is kept as `o["impl_privacy"]` / `o["impl_visible"]`."""
 
-    def __init__(self, facts: Dict[str, Any]) -> None:
+    def __init__(self, facts: Dict[str, Any], expected: Optional[List[str]] = None) -> None:
         self.objs = facts["objs"]
+        self.from_rules = expected is not None
+        if expected is not None:
+            for o, lv in zip(self.objs, expected):
+                o.setdefault("impl_privacy", o["privacy"])
+                o.setdefault("impl_visible", o["visible"])
+                o["privacy"] = lv
+            for o in self.objs:          # parents come first in the table
+                par = self.objs[o["parent"]] if o["parent"] is not None else None
+                o["visible"] = o["privacy"] != "H" and (par is None or (bool(o["incontents"]) and par["visible"]))
         self.by_full: Dict[str, Dict[str, Any]] = {}
         self.by_url: Dict[str, Dict[str, Any]] = {}
         for o in self.objs:
@@ -1207,6 +1289,35 @@ def _model_dead_set(items: str) -> List[str]:
     return out
 
 
+def _privacy_token(o: Dict[str, Any]) -> str:
+    return "%s/%s/%s%s%s" % (enc(o["full"]), enc(o["name"]), "m" if o["ismodule"] else "o", "k",
+                             "e" if o["incontents"] else "s")
+
+
+LEVEL_CODES = {"HIDDEN": "H", "PRIVATE": "R", "PUBLIC": "U"}
+
+
+def expected_privacy(ctx, results: Sequence[Dict[str, Any]]) -> List[Optional[List[str]]]:
+    """the privacyClass of every object of every run according to the rule list the run was given, by the Lean
+    Privacy model (driver stream `privacy cli`, the model C13 proves and ties to qnmatch / parse_privacy_tuple).
+    None for a run whose rules the model refuses or cannot evaluate."""
+    reqs = []
+    for r in results:
+        rules = effective_rules(r["case"])
+        reqs.append("privacy cli " + " ".join("V " + enc(v) for v in rules) + " "
+                    + " ".join("Q c " + _privacy_token(o) for o in r["facts"]["objs"]))
+    outs = ctx.driver.run_parallel(reqs) if reqs else []
+    res: List[Optional[List[str]]] = []
+    for r, ans in zip(results, outs):
+        levels = ans.split(" | ")[0].split()
+        if len(levels) != len(r["facts"]["objs"]) or any(l not in LEVEL_CODES for l in levels):
+            ctx.count("expected-privacy-unavailable:" + (ans.split() or ["empty"])[0][:20])
+            res.append(None)
+        else:
+            res.append([LEVEL_CODES[l] for l in levels])
+    return res
+
+
 def crawl_and_compare(ctx, n_random: int, rule_lists: int, extra_cases: Sequence[Dict[str, Any]] = (),
                       scenarios: bool = True) -> List[Dict[str, Any]]:
     """generate, run pydoctor, crawl, compare every producer section with the Lean model.
@@ -1230,8 +1341,10 @@ def crawl_and_compare(ctx, n_random: int, rule_lists: int, extra_cases: Sequence
     answers: List[Optional[str]] = [None] * len(good)
     if ctx.model_ok:
         answers = list(ctx.driver.run_parallel([request_line(r["facts"]) for r in good]))
-    for r, ans in zip(good, answers):
-        r["truth"] = Truth(r["facts"])
+    # the Output model is run on the facts as pydoctor has them (above); the oracles work on the rule list's verdict
+    expected = expected_privacy(ctx, good) if ctx.model_ok else [None] * len(good)
+    for r, ans, exp in zip(good, answers, expected):
+        r["truth"] = Truth(r["facts"], exp)
         r["model"] = None
         secs = parse_answer(ans) if ans is not None else None
         if ans is not None and secs is None:
@@ -1284,8 +1397,8 @@ def replay_case(ctx, obj) -> Tuple[Optional[Dict[str, Any]], Optional[Dict[str, 
     if "facts" not in res:
         print("pydoctor aborted:", res.get("crash"))
         return None, None
-    res["truth"] = Truth(res["facts"])
     ans = ctx.driver.run([request_line(res["facts"])])[0]
+    res["truth"] = Truth(res["facts"], expected_privacy(ctx, [res])[0])
     secs = parse_answer(ans)
     if secs is not None:
         ms = model_sections_for_compare(secs)
